@@ -1,24 +1,30 @@
 #!/venv/bin/python
-"""seedmatrix.py [--all] : run each seeded change (seeded/<id>-<n>) against its own property's check (or all checks with --all) and
-write seeded/RESULTS.md."""
-import os, re, subprocess, sys
+"""seedmatrix.py [seed-id-regex] : run each seeded change (seeded/<id>-<n>) against its own property's check, merge the outcome
+into seeded/results.json and regenerate seeded/RESULTS.md from it."""
+import json, os, re, subprocess, sys
 V = os.path.dirname(os.path.dirname(os.path.abspath(__file__)))
-seeds = sorted(d for d in os.listdir(os.path.join(V, "seeded")) if re.match(r"C\d\d-\d", d))
-rows = []
+pat = re.compile(sys.argv[1] if len(sys.argv) > 1 else r".")
+seeds = sorted(d for d in os.listdir(os.path.join(V, "seeded")) if re.match(r"C\d\d-\d", d) and pat.search(d))
+cache_path = os.path.join(V, "seeded", "results.json")
+cache = json.load(open(cache_path)) if os.path.exists(cache_path) else {}
 for sid in seeds:
     own = sid.split("-")[0]
-    ids = [own]
-    r = subprocess.run([os.path.join(V, "tools", "seedrun.py"), sid] + ids, capture_output=True, text=True)
+    r = subprocess.run([os.path.join(V, "tools", "seedrun.py"), sid, own], capture_output=True, text=True)
+    row = None
     for line in r.stdout.splitlines():
         m = re.match(r"(C\d\d): exit=(\d) (\w+)", line)
         if m:
             keys = re.findall(r"key=(\S+)", r.stdout)
-            rows.append((sid, m.group(1), m.group(3), ", ".join(sorted(set(keys))[:3])))
-            print(rows[-1], flush=True)
-    if "PATCH-FAILED" in r.stdout:
-        rows.append((sid, own, "PATCH-FAILED", ""))
+            row = [own, m.group(3), ", ".join(sorted(set(keys))[:3])]
+    if "PATCH-FAILED" in r.stdout or row is None:
+        row = [own, "PATCH-FAILED", ""]
+    cache[sid] = row
+    print(sid, row, flush=True)
+    json.dump(cache, open(cache_path, "w"), indent=1, sort_keys=True)
 with open(os.path.join(V, "seeded", "RESULTS.md"), "w") as f:
-    f.write("# Seeded regressions (from independent sub-agents) vs. the quick tier of the property's own check\n\n| seed | check | result | finding keys (first 3) |\n|---|---|---|---|\n")
-    for row in rows:
-        f.write("| " + " | ".join(row) + " |\n")
-print("written", len(rows))
+    f.write("# Seeded regressions (from independent sub-agents) vs. the quick tier of the property's own check\n\n"
+            "Waves: -1/-2 first, -3/-4 second, -5/-6 third. MISSED rows are discussed in DESIGN.md 8.5.\n\n"
+            "| seed | check | result | finding keys (first 3) |\n|---|---|---|---|\n")
+    for sid in sorted(cache):
+        f.write("| " + sid + " | " + " | ".join(cache[sid]) + " |\n")
+print("written", len(cache))
